@@ -223,6 +223,36 @@ def monitor3(ctx, hooks, rng):
     except Exception:
         pass
     check("an error inside nested contexts")
+    # decorator form (the context object decorates a function): re-entered recursively, from a
+    # second function decorated with the same object, and left through an exception
+    deco = sr.default_tensordot_mode(m1)
+    seen_inside = []
+
+    @deco
+    def rec(n, boom):
+        seen_inside.append(hooks.default_mode())
+        if n:
+            rec(n - 1, boom)
+        elif boom:
+            raise Boom()
+        return None
+
+    @deco
+    def outer(n, boom):
+        seen_inside.append(hooks.default_mode())
+        return rec(n, boom)
+
+    for fn_, boom_ in ((rec, False), (outer, False), (rec, True), (outer, True)):
+        depth_ = rng.randint(1, 3)
+        try:
+            fn_(depth_, boom_)
+        except Boom:
+            pass
+        ctx.count("m3", "decorator-reentrant-calls")
+        if not check(f"a function decorated with default_tensordot_mode({m1!r}) re-entered {depth_} times{' and left through an exception' if boom_ else ''}"):
+            break
+    if any(v != m1 for v in seen_inside):
+        ctx.violation("context-not-applied", f"inside a decorated function the default was {sorted(set(seen_inside))}, expected {m1!r}", wit)
     sr.set_default_tensordot_mode(None)
     check("set_default_tensordot_mode(None)")
     sr.set_default_tensordot_mode("auto")
